@@ -345,6 +345,22 @@ class Engine:
                 return self.call_named(f"{a.cls}.{dunder}", [a, b], {}, env, pc, line)
         if isinstance(a, VSeq) and isinstance(b, VSeq) and isinstance(op, ast.Add):
             return self.seq_concat(a, b)
+        if isinstance(a, VSeq) and is_leaf(a.shape) and isinstance(b, (VSeq, VSet)) and isinstance(op, ast.Sub) and (getattr(a, "is_set", False) or isinstance(b, VSet) or getattr(b, "is_set", False)):
+            # set difference on sets represented as sequences of distinct elements: a fresh sequence D with
+            # every element of D in a and not in b (sound under-specification: nothing is assumed about which elements of a - b are present
+            # beyond "D is empty only if a - b is empty" being left unstated)
+            D = fresh_val("setdiff", ("seq", a.shape))
+            w = self.uf(f"diffw!{next(_v._cnt)}", [I], I)
+            p, q = z3.Ints(f"p!{next(_v._cnt)} q!{next(_v._cnt)}")
+            dp = z3.Select(D.arrs[()], p)
+            if isinstance(b, VSet):
+                not_in_b = z3.Not(z3.Select(b.arr, dp))
+            else:
+                not_in_b = QAll([q], z3.Implies(z3.And(0 <= q, q < b.len), z3.Select(b.arrs[()], q) != dp))
+            pc.append(z3.And(D.len >= 0, D.len <= a.len))
+            pc.append(QAll([p], z3.Implies(z3.And(0 <= p, p < D.len), z3.And(0 <= w(p), w(p) < a.len, dp == z3.Select(a.arrs[()], w(p)), not_in_b))))
+            D.is_set = True
+            return D
         if isinstance(a, VSet) and isinstance(b, VSet) and isinstance(op, ast.BitOr):
             x = z3.Const(f"x!{next(_v._cnt)}", LEAF_SORT[a.shape])
             return VSet(z3.Lambda([x], z3.Or(z3.Select(a.arr, x), z3.Select(b.arr, x))), a.shape)
@@ -452,7 +468,7 @@ class Engine:
                 if not hasattr(a, "t") or not z3.is_expr(a.t) or a.t.sort() != b.arr.sort().domain():
                     raise Undecided(f"`in` between {type(a).__name__} and a set of {b.shape}", line)
                 r = z3.Select(b.arr, a.t)
-            elif isinstance(b, VSeq) and b.is_leaf(shape):
+            elif isinstance(b, VSeq) and is_leaf(b.shape):
                 r = q_ex(1, lambda k: z3.And(0 <= k, k < b.len, z3.Select(b.arrs[()], k) == a.t))
             elif isinstance(b, VTuple):
                 r = z3.Or(*[val_eq(a, it) for it in b.items]) if b.items else z3.BoolVal(False)
